@@ -188,9 +188,17 @@ def _is_literal(v: ast.AST) -> bool:
 
 
 def _computes_only(helper: ast.FunctionDef) -> bool:
-    """the helper only computes and returns a value: local assignments, tests, asserts, returns"""
+    """the helper only computes and returns a value: local assignments (also into containers it created itself), tests, asserts, returns"""
+    a = helper.args
+    params = {p.arg for p in a.posonlyargs + a.args + a.kwonlyargs} | ({a.vararg.arg} if a.vararg else set()) | ({a.kwarg.arg} if a.kwarg else set())
+    own = {x.id for x in ast.walk(helper) if isinstance(x, ast.Name) and isinstance(x.ctx, ast.Store)} - params
     for x in ast.walk(helper):
         if isinstance(x, (ast.Attribute, ast.Subscript)) and isinstance(x.ctx, (ast.Store, ast.Del)):
+            root = x
+            while isinstance(root, (ast.Attribute, ast.Subscript)):
+                root = root.value
+            if isinstance(x, ast.Subscript) and isinstance(root, ast.Name) and root.id in own and isinstance(x.value, ast.Name):
+                continue          # a slot of a list/dict the helper built itself
             return False
         if isinstance(x, ast.Expr) and isinstance(x.value, ast.Call):
             return False
